@@ -1331,7 +1331,7 @@ class Exec:
         return self.call_contract(st, key, name, args, t, w)
 
     def call_contract(self, st, key, name, args, t, w):
-        cfn, pnames = self.registry.get(key)
+        cfn, pnames = self.registry.get_call(key)
         self.call_counter += 1
         argmap = {}
         for i, a in enumerate(args):
